@@ -288,9 +288,31 @@ func init() {
 	register("hpack", "C18: encoder sequences, round trips, decoder on encoder output / mutated / random bytes, fragmentations, Huffman, varints", func(c *ctx) {
 		// varints: boundaries of every prefix size
 		for n := 1; n <= 8; n++ {
-			for _, i := range []uint64{0, 1, 1<<uint(n) - 2, 1<<uint(n) - 1, 1 << uint(n), 127, 128, 16383, 16384, 1 << 32, 1<<62 - 1, 1 << 62} {
+			for _, i := range []uint64{0, 1, 1<<uint(n) - 2, 1<<uint(n) - 1, 1 << uint(n), 127, 128, 16383, 16384, 1 << 32, 1<<62 - 1, 1 << 62,
+				1<<63 - 1, 1 << 63, 1<<63 + 126, 1<<63 + 127, 1<<64 - 1} {
 				c.op(fmt.Sprintf("varint %d %d", n, i))
 				c.op(fmt.Sprintf("rdvarint %d %s", n, hx(hpack.VerifAppendVarInt(byte(n), i))))
+			}
+		}
+		// string literals whose declared length is huge (every signed/unsigned 32/64-bit boundary the 7-bit-prefix integer
+		// can express), for each literal representation, plain and Huffman, with and without a string limit
+		for _, v := range []uint64{1<<31 - 1, 1 << 31, 1<<32 - 1, 1 << 32, 1<<62 - 1, 1 << 62, 1<<63 - 1, 1 << 63, 1<<63 + 1, 1<<63 + 126, 1<<63 + 127} {
+			for _, first := range []string{"00", "40", "10", "0f01", "41", "11"} {
+				for _, huff := range []bool{false, true} {
+					l := hpack.VerifAppendVarInt(7, v)
+					if huff {
+						l[0] |= 0x80
+					}
+					for _, tail := range []string{"", "61", "616263"} {
+						for _, strlen := range []int{0, 16} {
+							c.tag("decinput:huge-length")
+							c.op(fmt.Sprintf("hpdec max=4096 allowed=4096 strlen=%d w=%s,C", strlen, first+hx(l)+tail))
+							if tail != "" {
+								c.op(fmt.Sprintf("hpdec max=4096 allowed=4096 strlen=%d w=%s,%s,C", strlen, first+hx(l), tail))
+							}
+						}
+					}
+				}
 			}
 		}
 		for i := 0; i < c.count; i++ {
